@@ -1449,6 +1449,14 @@ func (x *Exec) cutLoop(f *Frame, li *loopInfo) {
 			continue
 		}
 		fr := loopFrame{heap: h, pre: pre.Heap(x, h, mod.heaps[h]), allocPre: pre.Alloc(x), excl: lms.objs[h]}
+		// maps made by this function are its own objects as well
+		for v, r := range f.regs {
+			if mm, ok := v.(*ssa.MakeMap); ok && r.T.S != "" {
+				if mt, ok := mm.Type().Underlying().(*types.Map); ok && x.mapHeapName(mt) == h {
+					fr.excl = append(fr.excl, r.T)
+				}
+			}
+		}
 		// cells of the function's own address-taken locals are locals, not pre-existing objects
 		for v, r := range f.regs {
 			if a, ok := v.(*ssa.Alloc); ok && a.Heap && r.LV != nil && r.LV.kind == LVCell && len(r.LV.path) == 0 {
@@ -1486,12 +1494,60 @@ func (x *Exec) loopVars(f *Frame, li *loopInfo) map[string]TV {
 	st := x.cur
 	// choose, for each name, the alloc declared latest before the end of the loop
 	best := map[string]*ssa.Alloc{}
+	// several locals can share a name (shadowing, the hidden "rangeindex" of every range loop): prefer
+	// the one written inside this loop, then the one declared last (position, then instruction order)
+	inLoop := map[*ssa.Alloc]bool{}
+	if li != nil && li.body != nil {
+		for b := range li.body {
+			for _, ins := range b.Instrs {
+				if s, ok := ins.(*ssa.Store); ok {
+					if a, ok := s.Addr.(*ssa.Alloc); ok {
+						inLoop[a] = true
+					}
+				}
+			}
+		}
+	}
+	order := func(a *ssa.Alloc) int {
+		blk := a.Block()
+		if blk == nil {
+			return 0
+		}
+		for k, ins := range blk.Instrs {
+			if ins == a {
+				return blk.Index*100000 + k
+			}
+		}
+		return blk.Index * 100000
+	}
+	inHeader := map[*ssa.Alloc]bool{}
+	if li != nil && li.header != nil {
+		for _, ins := range li.header.Instrs {
+			if s, ok := ins.(*ssa.Store); ok {
+				if a, ok := s.Addr.(*ssa.Alloc); ok {
+					inHeader[a] = true
+				}
+			}
+		}
+	}
+	better := func(a, b *ssa.Alloc) bool {
+		if inHeader[a] != inHeader[b] {
+			return inHeader[a] // the loop's own hidden index is advanced in its header
+		}
+		if inLoop[a] != inLoop[b] {
+			return inLoop[a]
+		}
+		if a.Pos() != b.Pos() {
+			return a.Pos() > b.Pos()
+		}
+		return order(a) > order(b)
+	}
 	for a := range st.locals {
 		n := a.Comment
 		if n == "" || a.Parent() != f.fn {
 			continue // unnamed temporaries and locals of inlined callees
 		}
-		if b, ok := best[n]; !ok || a.Pos() > b.Pos() {
+		if b, ok := best[n]; !ok || better(a, b) {
 			best[n] = a
 		}
 	}
